@@ -789,6 +789,10 @@ protected:
       Wt wt_sij = c + s_p.second;
       for (auto d_p : dest_dec) {
         vert_id de = d_p.first;
+        // A cycle s->i->j->s is not a constraint: do not store it as a
+        // self-loop s->s (same guard as in split_oct and sparse_dbm).
+        if (se == de)
+          continue;
         Wt wt_sijd = wt_sij + d_p.second;
         if (g.lookup(se, de, w)) {
           if (w.get() <= wt_sijd) {
